@@ -58,12 +58,26 @@ class C08OpGen(OpGen):
             return {"op": "features", "disable": on}
         return {"op": "features", "enable": sel, "recompute": True}
 
+    def gen_rescale(self, tracks):
+        """The user corrects the voxel size: tracks.scale is replaced and every enabled
+        measurement recomputed in bulk; from then on the new scale is the one that counts."""
+        rng = self.rng
+        if tracks.scale is None:
+            return None
+        n = len(tracks.scale)
+        new = [float(tracks.scale[0])] + [rng.choice([0.5, 1.0, 1.5, 2.0, 3.0]) for _ in range(n - 1)]
+        if self.cfg.ndim == 3 and self.cfg.scale not in ("aniso", "tscale"):
+            # 2-D anisotropic perimeter is unsupported by scikit-image; sessions that may
+            # switch perimeter / circularity on keep an isotropic spatial scale
+            new = [new[0]] + [new[1]] * (n - 1)
+        return {"op": "rescale", "scale": new}
+
     def scenario_keys(self, tracks, enabled):
         return [k for k in enabled if k != self.iou_key(tracks)]
 
 
 WEIGHTS = {"paint": 8, "update_attrs": 0.2, "swap": 0.5, "add_node": 4, "delete_node": 3,
-           "features": 1.2, "scenario": 0.8, "prim_seg": 0.6}
+           "features": 1.2, "scenario": 0.8, "prim_seg": 0.6, "rescale": 0.4}
 
 
 def plan(tier, seed):
